@@ -31,6 +31,15 @@ let handle op args =
       [hex_of_bytes u.u_name; hex_of_z u.u_number; hex_of_n u.u_card; hex_of_n u.u_kind;
        tok_of_bool (match u.u_json with Some _ -> true | None -> false); hex_of_bytes (u_json_name u);
        tok_of_bool (u_is_packed u); tok_of_bool u.u_proto3; hasdef; def]
+  | "derive", [shape; gk; parent; tag] ->
+      let gk = gokind_of_tok gk in
+      let sh = (match shape with "p" -> ShPtr gk | "s" -> ShSlice gk | "v" -> ShPlain gk
+                | s -> failwith ("legacy: bad shape " ^ s)) in
+      let tag = bytes_of_hex tag in
+      let u = derive_field (bytes_of_hex parent) sh tag in
+      [hex_of_bytes u.u_name; hex_of_z u.u_number; hex_of_n u.u_card; hex_of_n u.u_kind;
+       hex_of_bytes (u_json_name u); tok_of_bool (u_is_packed u);
+       tok_of_bool (derive_msg_proto3 sh tag); tok_of_bool (u_has_presence u)]
   | _ -> failwith ("legacy: unknown op " ^ op)
 
 let () = register "legacy" handle
